@@ -14,7 +14,7 @@
      via    0 written in the harness source, 1 generated program, 2 generated program whose list
             elements are distinct fn items coerced to one fn-pointer type, 4 generated program in
             which the braced length is a const generic parameter of the enclosing fn (all ignored by
-            the model); 3 generated program whose repeat operand is a path to a `const` item of
+            the model), 5 / 6 the type-level length written as an alias named `N` / `T` (ignored by the model); 3 generated program whose repeat operand is a path to a `const` item of
             the (non-Copy) element type: the operand is a ConstPath, nothing is logged for it
    element i is an expression that appends i to the log and yields 3 + 7*i.
    obs: Done -> 0 kind(0 GenericArray,1 Box) N::USIZE len values... loglen log...
